@@ -2,8 +2,8 @@
    Statements only; proofs in IRCP.ModeP.  The "exactly as announced" half (replaying the
    announcement over the old channel record gives the new one) is checked on every run by the
    correspondence oracle, not proved here: see DESIGN.md section 5 (C08). *)
-From IRC Require Import Str Wild Glob Mask Parse Reply State Handlers.
-From IRCP Require Import ModeP AnnounceP.
+From IRC Require Import Str Wild Glob Mask Parse Reply State Handlers Step.
+From IRCP Require Import InvDefs ModeP AnnounceP SettingsFrame SettingsGlobal.
 From stdpp Require Import gmap.
 
 Section C08.
@@ -153,6 +153,27 @@ Proof. exact mode_char_limit_announced. Qed.
 
 End C08.
 
+(* CHANGE ONLY THROUGH MODE, over every event of every connection (lines of any content, closes, timer events, KILL
+   delivery): a channel that exists before and after a step has the same flags (i m s t n), key, limit, ban list,
+   exception list and invite-exception list - unless the event is a line of a registered connection whose command is
+   MODE naming that very channel (which then needs the rank of C08_insufficient_rank_changes_nothing).  JOIN, PART,
+   KICK, NICK, TOPIC, INVITE and every way a session ends leave the settings of every surviving channel alone. *)
+Theorem C08_settings_change_only_by_mode : forall cfg verify w i e w' o cl,
+  Inv w -> step cfg verify w i e = Ok (w', o, cl) ->
+  forall ch co co', chans (sh w) !! ch = Some co -> chans (sh w') !! ch = Some co' ->
+  csettings (ch_modes co') = csettings (ch_modes co) \/
+  exists c l, conns w !! i = Some c /\ e = EvLine l /\ c_auth c = true /\
+              exists msg modes, tokenize l = inl msg /\ command_of_message msg = inl (MODE ch modes).
+Proof. exact settings_change_only_by_mode. Qed.
+
+(* the same per command: each of the 40 commands other than MODE keeps the settings of every channel it does not
+   create or destroy *)
+Theorem C08_other_commands_keep_settings : forall cfg verify i s c cmd msg r,
+  InvS s -> conn_ok i s c -> c_auth c = true ->
+  dispatch cfg verify i s c cmd msg = Ok r -> (forall target modes, cmd <> MODE target modes) ->
+  forall ch co co', chans s !! ch = Some co -> chans (h_sh r) !! ch = Some co' -> csettings (ch_modes co') = csettings (ch_modes co).
+Proof. exact dispatch_settings. Qed.
+
 Print Assumptions C08_outsider.
 Print Assumptions C08_flags_as_announced.
 Print Assumptions C08_announcement_text.
@@ -167,3 +188,5 @@ Print Assumptions C08_list_announced.
 Print Assumptions C08_list_refused.
 Print Assumptions C08_key_announced.
 Print Assumptions C08_limit_announced.
+Print Assumptions C08_settings_change_only_by_mode.
+Print Assumptions C08_other_commands_keep_settings.
